@@ -59,3 +59,27 @@ func genStorage(sb *strings.Builder) error {
 	fmt.Fprintf(sb, "Definition storage_sync_then_rename : bool := %v.\n\n", renameOK && syncPos != token.NoPos && syncPos < renamePos)
 	return nil
 }
+
+func init() {
+	genSections = append(genSections, genPeeringLocks)
+}
+
+// genPeeringLocks: AddLink and RemoveLink of the peering registry hold linksLock for their whole body.
+func genPeeringLocks(sb *strings.Builder) error {
+	fset := token.NewFileSet()
+	f, err := parser.ParseFile(fset, "/repo/peering/peering.go", nil, 0)
+	if err != nil {
+		return err
+	}
+	lockFieldName = "linksLock"
+	defer func() { lockFieldName = "lock" }()
+	locked := map[string]bool{}
+	for _, d := range f.Decls {
+		if fd, ok := d.(*ast.FuncDecl); ok && fd.Recv != nil {
+			locked[fd.Name.Name] = lockedWhole(fd)
+		}
+	}
+	sb.WriteString("(* the link registry's AddLink / RemoveLink run under linksLock for their whole body (go/ast) *)\n")
+	fmt.Fprintf(sb, "Definition peering_addlink_locked : bool := %v.\nDefinition peering_removelink_locked : bool := %v.\n\n", locked["AddLink"], locked["RemoveLink"])
+	return nil
+}
